@@ -312,8 +312,8 @@ func runC19(r *h.Run) {
 	if spawnAfterKill {
 		r.Violate("launch-after-kill", ctx, fmt.Sprintf("a launch happened after Kill had returned; history: %s", renderHist(hist)))
 	}
-	if w.Probes["runnerfunc.called"] > 1 {
-		r.Violate("launched-twice", ctx+" runnerfunc", fmt.Sprintf("RunnerFunc was invoked %d times; history: %s", w.Probes["runnerfunc.called"], renderHist(hist)))
+	if w.ProbeCount("runnerfunc.called") > 1 {
+		r.Violate("launched-twice", ctx+" runnerfunc", fmt.Sprintf("RunnerFunc was invoked %d times; history: %s", w.ProbeCount("runnerfunc.called"), renderHist(hist)))
 	}
 	// identical addresses / clients (before any Kill)
 	addrs, clients := map[string]bool{}, map[string]bool{}
